@@ -362,7 +362,7 @@ var answerForms = map[byte][]string{
 
 func genC05(tier string, r *core.Rand) PeerPlan {
 	size := sizeFor(tier, r)
-	a, b := GenStations(r, 12, size)
+	a, b := GenStations(r, 22, size)
 	a.Gzip = false
 	pp := PeerPlan{Lib: a, LibMaster: r.Bool(), PeerMsgs: b.Msgs, Link: GenLink(r)}
 	pp.Lib.Status = false
